@@ -35,15 +35,16 @@ func TestMain(m *testing.M) {
 
 // simServerConn is one dialed connection with its request/response server.
 type simServerConn struct {
-	id       int
-	conn     *simnet.Conn
-	srv      *simnet.Server
-	dialedAt time.Time
-	mu       sync.Mutex
-	answered int // requests (queries + pings) answered or consumed
-	inflight int
-	overlap  string   // description of an overlapping request, if any
-	seen     []string // query ids received
+	id        int
+	conn      *simnet.Conn
+	srv       *simnet.Server
+	dialedAt  time.Time
+	mu        sync.Mutex
+	answered  int // requests (queries + pings) answered or consumed
+	inflight  int
+	dropPongs int      // so many of the next pings get no answer
+	overlap   string   // description of an overlapping request, if any
+	seen      []string // query ids received
 }
 
 type farm struct {
@@ -129,7 +130,15 @@ func (sc *simServerConn) respond(s *simnet.Server) {
 		sc.mu.Unlock()
 		switch {
 		case r.ping:
-			sc.conn.Deliver([]byte{ref.ServerPongCode}, nil)
+			sc.mu.Lock()
+			drop := sc.dropPongs > 0
+			if drop {
+				sc.dropPongs--
+			}
+			sc.mu.Unlock()
+			if !drop { // a dropped pong: the ping is never answered (lost on the way)
+				sc.conn.Deliver([]byte{ref.ServerPongCode}, nil)
+			}
 		case r.body == "OK", r.body == "INS-END":
 			sc.conn.Deliver([]byte{ref.ServerEndOfStreamCode}, nil)
 		case r.body == "INS":
@@ -344,10 +353,26 @@ func runC11(rt *rapid.T, st *stats.Collector) {
 		if h.dead {
 			return // nothing to do in this state (a no-op step; skipping too often makes rapid give up)
 		}
-		kind := rapid.SampledFrom([]string{"OK", "OK", "EXC", "CUT", "EXCCUT", "RST", "HANG", "PING"}).Draw(rt, "do-kind")
+		kind := rapid.SampledFrom([]string{"OK", "OK", "EXC", "CUT", "EXCCUT", "RST", "HANG", "PING", "PINGLOST"}).Draw(rt, "do-kind")
 		ctx := context.Background()
 		var err error
 		switch kind {
+		case "PINGLOST":
+			// the pong never arrives: Ping fails on its read timeout; the connection itself is fine
+			if h.conn < 0 {
+				return
+			}
+			f.mu.Lock()
+			sc := f.conns[h.conn]
+			f.mu.Unlock()
+			sc.mu.Lock()
+			sc.dropPongs++
+			sc.mu.Unlock()
+			if perr := h.c.Ping(ctx); perr == nil {
+				rt.Fatalf("h%d: Ping returned nil although its pong was dropped\nhistory: %s", h.id, history())
+			}
+			note("h%d.PINGLOST", h.id)
+			return
 		case "PING":
 			err = h.c.Ping(ctx)
 		case "HANG":
